@@ -34,6 +34,7 @@ def run(ctx):
     c09_3(ctx)
     c09_4(ctx)
     c09_5(ctx)
+    c09_6(ctx)
 
 
 def _coin_aggs(b):
@@ -372,3 +373,41 @@ def c09_5(ctx):
         detail = [c[0][:110] + " " + str(c[1]) for c in conds if "Allocator::atom" in c[0]]
     ctx.ob(R, "create-coin-test:SpendBundle::additions", ok,
            "SpendBundle::additions treats a condition as CREATE_COIN iff its opcode atom is exactly one byte equal to 51", found=detail, where=f.sp)
+
+
+def c09_6(ctx):
+    """(a) the trusted-block scans walk the whole spend list: the loop that pushes recovered spends / removals is left only when
+    the list is exhausted or towards an error (no count-based `break`: the 6000-spend limit is a consensus rule only under
+    LIMIT_SPENDS, blocks validated without it may hold more);  (b) SpendBundle::additions runs each puzzle under the consensus
+    dialect (ClvmFlags::empty()), as block validation does for the same spend -- mempool-mode strictness would refuse puzzles
+    (unknown operators) that validation accepts."""
+    R = "C09.6"
+    fb = ctx.fb
+
+    def pushes_to(b, name):
+        out = []
+        for bi, n, t in b.calls():
+            if U.flat(n).endswith("Vec::push") and t["args"]:
+                a0 = b.operand_term(t["args"][0])
+                while isinstance(a0, tuple) and a0 and a0[0] == "mutated":
+                    a0 = a0[1]
+                if isinstance(a0, tuple) and a0 and a0[0] == "refmut" and b.names.get(a0[1]) == name:
+                    out.append(bi)
+        return out
+    for suffix, vec in (("run_block_generator::get_coinspends_for_trusted_block", "output"),
+                        ("run_block_generator::get_coinspends_with_conditions_for_trusted_block", "output"),
+                        ("additions_and_removals::additions_and_removals", "removals")):
+        fs = [f for p, f in fb.fns.items() if (p == CC + suffix or p.startswith(CC + suffix + "::<")) and f.e["kind"] == "Fn"]
+        if len(fs) != 1:
+            ctx.missing(R, "whole-list:" + suffix.split("::")[-1], "function not found")
+            continue
+        b = Body(fs[0], fb)
+        ctx.touched(b.path)
+        U.whole_list(ctx, R, b, "whole-list:" + suffix.split("::")[-1], pushes_to(b, vec),
+                     "%s walks the whole spend list (the loop ends only at the end of the list or on an error)" % suffix.split("::")[-1])
+    f = fb.fns.get("chia_protocol::spend_bundle::SpendBundle::additions")
+    if f:
+        b = Body(f, fb)
+        runs = [t for bi, n, t in b.calls() if U.flat(n).endswith("Program::run")]
+        got = [str(apnf.N(strip_all(b.operand_term(t["args"][2])))) for t in runs] if runs else []
+        ctx.ob(R, "additions:consensus-dialect", got == ["('empty',)"], "SpendBundle::additions runs puzzles with ClvmFlags::empty()", found=got, where=f.sp)
